@@ -60,11 +60,11 @@ CLAIMED = {
         'C06': dict(
         text="Rule layer: each rule function under contract returns a non-empty error list EXACTLY when its June-2018 rule is broken for the arguments the document builder hands it (one equality clause gives both no_false_reject and no_false_accept): 5.8.5 (_validate_type_compatibility == AreTypesCompatible, _validate_usage == IsVariableUsageAllowed, _find_variable_by_name == first definition of that name in THIS operation), 5.5.2.3 (_validate_node, _validate_is_possible with the helper inlined, _validate_spreads), 5.7.1 directives-are-defined, 5.5.1.2 / 5.5.1.3 fragment type conditions, 5.5.1.4 fragments-must-be-used, 5.5.2.1 spread-target-defined, 5.8.2 variables-are-input-types, 5.2.2.1 lone-anonymous-operation, 5.2.3.1 single-root-field (every subscription operation checked), 5.3.1 field selections (only __typename is exempt), 5.3.3 leaf-field-selections, 5.1.1 executable-definitions, the uniqueness rules for arguments / fragment names / operation names / variables / input-object fields / directives per location (reports iff some name is carried by more than one node: counting filter lemma), 5.4.1 argument-names and 5.4.2.1 required-arguments (directive side, field side and the dispatching validate), find_nodes_by_name; valid requests reach execute (_perform_query).",
         ref="DESIGN.md section 4 C06/C07, Appendix A",
-        note="22 of the 26 rules have their deciding functions under contract; not covered: values-of-correct-type, directive locations, the cycle rule, all-variables-used / all-variable-uses-defined (recursive collectors mutate lists nested in the context: outside the engine), and the context layer of the AST builder (frame pass only, C16). Deviations D2-D4, D6, D8 are not rediscovered by an obligation; D5b and D7 were found by this check and repaired in /repo."),
+        note="22 of the 26 rules have their deciding functions under contract, plus the leaf cases of values-of-correct-type; not covered: the list / non-null / input-object recursion of values-of-correct-type, directive locations, the cycle rule, all-variables-used / all-variable-uses-defined (recursive collectors mutate lists nested in the context: outside the engine), and the context layer of the AST builder (frame pass only, C16). Deviations D2-D4, D6, D8 are not rediscovered by an obligation; D5b and D7 were found by this check and repaired in /repo."),
     'C07': dict(
         text="The same rule functions as C06 (the equality clause is also the no_false_accept half: an ill-typed variable usage, an impossible spread at ANY site, an undefined directive / fragment target / type condition, an unused fragment, a non-input variable type, a second anonymous operation, a subscription with several root fields, an undefined field, a leaf with sub-selection ... yields an error), plus Validators.validate (every error a rule returns is appended, an aborting rule that reported stops the following rules, nothing runs after an abort), the context layer functions _parse_inline_fragment and _parse_field, and the short-circuit: parse_and_validate_query turns validator errors / any parser failure into non-empty errors and _perform_query answers such requests without calling execute, so no resolver or field-level hook runs.",
         ref="DESIGN.md section 4 C06/C07, Appendix A",
-        note="As C06: 22 of 26 rules. The context layer has one function under contract: _parse_inline_fragment registers the fragment under the ENCLOSING parent type and restores the parent type. Findings D5b (undefined `__foo` fields accepted), D7 (only the first subscription operation checked) and D4 (inline fragments registered under their own type condition) were found by this check and repaired in /repo."),
+        note="As C06: 22 of 26 rules. The context layer has one function under contract: _parse_inline_fragment registers the fragment under the ENCLOSING parent type and restores the parent type. The leaf positions of values-of-correct-type (5.6.1: scalar / enum / input-object literal at a named type) are under contract too. Findings D5b (undefined `__foo` fields accepted), D7 (only the first subscription operation checked), D4 (inline fragments registered under their own type condition) and D5 (string literal accepted at an enum position) were found by this check and repaired in /repo."),
 'C08': dict(
         text="(i) list_coercer_sequentially and list_coercer_concurrently satisfy literally the same contract (positional results, every item failure gathered), extract_exceptions_from_results, coerce_variables, input_object_coercer and execute_fields merge positionally (loop invariants over zip; pointwise claim for an arbitrary index); (ii) structural obligations over the request cone: every asyncio.gather whose awaitables may raise uses return_exceptions=True (so it returns only when all of them have finished and loses no failure), no create_task / ensure_future / as_completed anywhere (every started coroutine is awaited in place).",
         ref="DESIGN.md section 4 C08",
@@ -104,7 +104,7 @@ def main():
          "engines": [{"name": "pyvc", "path": "pyvc/", "serves_properties": sorted(CLAIMED),
                       "kind_free_text": "contract-based deductive verifier for a Python subset: AST -> verification conditions by forward symbolic execution, modular callee contracts, loop invariants, SMT back ends, native replay of counter-models"}],
          "checks": checks, "not_applicable": na,
-         "notes": "exit codes: 0 held, 1 violation (VIOLATION line), 2 undecided (solver unknown / function outside the subset / stale contract), 3 checker failure. quick tier: every obligation discharged by the solver portfolio. thorough tier: the same obligations with second-solver agreement (z3 4.8.12 and cvc5 both asked on the exported SMT-LIB text; a disagreement is a checker error) plus a mutation probe (built-in AST mutants of each quickly verified function must fail some obligation; reported as coverage.mutation_probe). known_findings.json lists recorded findings and fixes (D1, D4, D5b, D7, D12: all repaired in /repo by fix: commits)."}
+         "notes": "exit codes: 0 held, 1 violation (VIOLATION line), 2 undecided (solver unknown / function outside the subset / stale contract), 3 checker failure. quick tier: every obligation discharged by the solver portfolio. thorough tier: the same obligations with second-solver agreement (z3 4.8.12 and cvc5 both asked on the exported SMT-LIB text; a disagreement is a checker error) plus a mutation probe (built-in AST mutants of each quickly verified function must fail some obligation; reported as coverage.mutation_probe). known_findings.json lists recorded findings and fixes (D1, D4, D5, D5b, D7, D12: all repaired in /repo by fix: commits)."}
     json.dump(m, open(os.path.join(ROOT, 'MANIFEST.json'), 'w'), indent=1)
     try:
         import jsonschema
